@@ -88,6 +88,11 @@ func registerVerif(reg func(string, func(*Interp, []Value) Value)) {
 		ip.FrozenOK[s] = true
 		return nil
 	})
+	reg("verif:verifTag", func(ip *Interp, a []Value) Value {
+		s, _ := goStr(a[0])
+		ip.W.tag = s
+		return nil
+	})
 	reg("verif:verifSymbolic", func(ip *Interp, a []Value) Value { return tTrue })
 	reg("verif:verifIsConcrete", func(ip *Interp, a []Value) Value {
 		switch v := a[0].(type) {
